@@ -305,7 +305,17 @@ def run(chk, tier, explicit=None):
                     for i in range(shards) if lines[i * shardsz:(i + 1) * shardsz]]
             for f in futs:
                 model += f.result()
-        somes = [(l, m) for l, m in zip(lines, model) if m is not None]
+        somes = []
+        for l, m in zip(lines, model):
+            if m is None:
+                continue
+            # a metacharacter in a generated body can start a new stage whose command word is not `p`: every command
+            # word the model sees must be runnable as the reporting stub, otherwise the line says nothing
+            names = ["".join(chr(c) for c in st[0]) for st in m if st]
+            if len(names) == len(m) and all(sh.linkable(nm) and sh.external(nm) for nm in names):
+                for nm in names:
+                    sh.ensure(nm)
+                somes.append((l, m))
         with ThreadPoolExecutor(max_workers=16) as ex:
             sres = list(ex.map(lambda lm: sh.eval_line(to_s(lm[0])), somes))
         bad = [(l, m, g) for (l, m), (rc, g) in zip(somes, sres) if g != m]
